@@ -100,7 +100,8 @@ func BuildTx(s TxSpec) *pb.Transaction {
 			RefTxid:      in.Tx.Txid,
 			RefOffset:    int32(in.Offset),
 			FromAddr:     from,
-			Amount:       o.Amount,
+			// the canonical byte form: the state machine compares cited amounts byte-wise
+			Amount:       new(big.Int).SetBytes(o.Amount).Bytes(),
 			FrozenHeight: o.FrozenHeight,
 		})
 	}
